@@ -118,6 +118,30 @@ func TestURLSurvivesBody(t *testing.T) {
 }
 
 func init() {
+	replayers["hdr-merge"] = func(w *World, v violation) map[string]any {
+		src := replayServerPrelude + `
+func TestMethodDeclarationReplacesServiceDeclaration(t *testing.T) {
+	// service: X-API-Key required; method ListNotes re-declares X-API-Key as NOT required
+	s, mux := newRec(t)
+	rec := do(mux, "POST", "/api/v1/notes/list", "application/json", "{}", nil)
+	if rec.Code != 200 || s.calls != 1 {
+		t.Errorf("POST /api/v1/notes/list without X-API-Key: status %d, handler calls %d, body %s; the method-level declaration says the header is optional", rec.Code, s.calls, rec.Body.String())
+	}
+}
+`
+		passed, out, err := RunEmittedTest("TestMethodDeclarationReplacesServiceDeclaration", src)
+		res := map[string]any{"request": "POST /api/v1/notes/list without X-API-Key (service: required, method: same name, not required)", "test_output": tail(out, 1200)}
+		if err != nil {
+			res["confirmed"] = false
+			res["reason"] = err.Error()
+			return res
+		}
+		res["confirmed"] = !passed
+		if passed {
+			res["reason"] = "the emitted server lets the method-level declaration replace the service-level one: does not replay"
+		}
+		return res
+	}
 	debugCmds["replayer"] = func(args []string) int {
 		w, err := LoadWorld()
 		if err != nil {
